@@ -33,54 +33,15 @@ Proof. vm_compute. reflexivity. Qed.
 
 (** ---- the option pipeline, in the order the source applies it ---- *)
 
-Definition stage_eqb (a b : stage) : bool :=
-  match a, b with
-  | StFormat, StFormat | StDirname, StDirname | StBasename, StBasename | StExt, StExt | StPadding, StPadding
-  | StRange, StRange | StInverted, StInverted | StIndex, StIndex | StFrame, StFrame => true
-  | _, _ => false
-  end.
-Lemma stage_eqb_eq : forall a b, stage_eqb a b = true -> a = b.
-Proof. intros a b; destruct a, b; simpl; intros H; try reflexivity; discriminate H. Qed.
-
-(** reformat first, then the five component overrides in ANY order, then inversion, then index, then frame *)
-Definition pipeline_ok (pl : list stage) : bool :=
-  match pl with
-  | StFormat :: a :: b :: c :: d :: e :: [StInverted; StIndex; StFrame] =>
-    forallb (fun s => existsb (stage_eqb s) [a; b; c; d; e]) override_block
-  | _ => false
-  end.
-
 (** tie T: the statement order gfsgen reads from the source today passes the boolean test *)
 Lemma generated_pipeline_is_ok : pipeline_ok GenSeqinfo.pipeline = true.
 Proof. vm_compute. reflexivity. Qed.
-
-Lemma pipeline_ok_shape : forall pl, pipeline_ok pl = true ->
-  exists mid, Permutation override_block mid /\ pl = StFormat :: mid ++ [StInverted; StIndex; StFrame].
-Proof.
-  intros pl H. unfold pipeline_ok in H.
-  destruct pl as [|s0 pl]; [discriminate H|]. destruct s0; try discriminate H.
-  destruct pl as [|a [|b [|c [|d [|e [|i pl]]]]]]; try discriminate H.
-  destruct i; try discriminate H.
-  destruct pl as [|x pl]; [discriminate H|]. destruct x; try discriminate H.
-  destruct pl as [|f pl]; [discriminate H|]. destruct f; try discriminate H.
-  destruct pl as [|z r]; [|discriminate H].
-  exists [a; b; c; d; e]. split; [|reflexivity].
-  apply NoDup_Permutation_bis.
-  - unfold override_block. repeat (apply NoDup_cons; [cbn [In]; intros K; repeat (destruct K as [K|K]; [discriminate K|]); exact K|]).
-    apply NoDup_nil.
-  - reflexivity.
-  - intros s Hs. rewrite forallb_forall in H. specialize (H s Hs). apply existsb_exists in H.
-    destruct H as [y [Hy E]]. apply stage_eqb_eq in E. subst y. exact Hy.
-Qed.
 
 (** the tool applies: reformat, then the overrides, then inversion, then index/frame selection -
     stated on the GENERATED list, robust to a reordering of the (commuting) overrides *)
 Theorem options_are_applied_in_the_documented_order : forall pattern o refmt,
   seqinfo_run GenSeqinfo.pipeline pattern o refmt = seqinfo_parse pattern o refmt.
-Proof.
-  intros pattern o refmt. destruct (pipeline_ok_shape _ generated_pipeline_is_ok) as [mid [HP E]].
-  rewrite E. apply seqinfo_any_override_order. exact HP.
-Qed.
+Proof. exact (fun pattern o refmt => pipeline_ok_runs_as_documented _ pattern o refmt generated_pipeline_is_ok). Qed.
 
 Theorem documented_order_is_sorted_by_class :
   StronglySorted (fun a b => (stage_class a <= stage_class b)%nat) reference_pipeline /\
